@@ -39,6 +39,22 @@ package main
 //	cannot carry its token, so its callbacks look the token up in / report to the package-level record of the current start
 //	(`curOrd`); at most three per class and start (twelve Go types zrP0 … zrQ2).  The driver ignores the marker.
 //
+//	markers t / u (processors and runners; ninth round) = the SAME instance reaches the singleton registry through two
+//	routes: t = it is listed twice in the application's own app.SetComponents(...) call (app.SetComponents(x, x));
+//	u = it is listed once more in a SECOND app.SetComponents option applied after the first one (a module's option bundle
+//	next to the application's own list).  The registry tolerates this (singleton_registry.go:54-59: the same object under a
+//	taken name is ignored), so the instance is still ONE participant: once in the sorted sequence, each callback once per
+//	component.  The driver registers the instances as often as the line says and applies the registry's rule.
+//
+//	marker c (runners of class p / o only; ninth round) = the runner's Order() answers a field bound from CONFIGURATION
+//	(`value:"${ordrc.<class><slot>}"`; eight Go types rcP0 … rcO3, at most four per class and start; the configuration
+//	holds the token's key under that path before the start).  Such a runner answers 0 until the container has populated it.
+//	The runners are called `ordR<id>`, which sorts after github.com/go-kid/ioc/app/App: Refresh creates (and populates) them
+//	AFTER the App component.  In a start with such runners the definition registry enumerates them LAST and in DESCENDING
+//	configured Order (imposed on GetMetas through factory.NewWithRegistries, like the graph harness does): whoever fixes
+//	the runner sequence before the runners are wired sees them tie and keeps exactly the wrong order.  The contract is
+//	judged — and the observation printed — with the Order() each runner answered when its Run was called.
+//
 //	p = Priority()+Order(), o = Order() only, n = neither, q = Priority() without Order() (must land in the plain block)
 //
 // Observations never show the order inside a (class,key) tie group (sort.Slice is unstable).
@@ -52,6 +68,7 @@ import (
 	"errors"
 	"fmt"
 	"math"
+	"sort"
 	"strconv"
 	"strings"
 	"time"
@@ -61,6 +78,7 @@ import (
 	"github.com/go-kid/ioc/configure"
 	"github.com/go-kid/ioc/configure/binder"
 	"github.com/go-kid/ioc/container"
+	"github.com/go-kid/ioc/container/factory"
 	"github.com/go-kid/ioc/container/processors"
 	"github.com/go-kid/ioc/container/support"
 	"github.com/go-kid/ioc/definition"
@@ -398,6 +416,8 @@ type startLog struct {
 	cur              int     // loader whose LoadConfig ran last
 	// `SB` starts: PostProcessBeforeInstantiation calls for the probe (N) and the callbacks for the second watched component
 	N, N2, I2, P2, A2 []int
+	// runners with a configuration-driven Order (marker c): id → the Order() the runner answered when its Run was called
+	RK map[int]int
 }
 
 // the second watched component of `SB` starts; Refresh creates the components in name order: ordprobe, then ordtwin
@@ -848,6 +868,143 @@ type rnQ struct {
 	definition.PriorityComponent
 }
 
+// runners whose Order() comes from configuration (marker c): the field K is bound by the container from `${ordrc.<slot>}`
+// when the runner is populated; until then Order() answers 0.  The tag is fixed per Go type, so there are four types per
+// ordered class; a start puts the token's key under the type's path (ordRcDoc).  Run records the Order() answered then.
+func (r *rnBase) runC(k int) error {
+	if r.log.RK == nil {
+		r.log.RK = map[int]int{}
+	}
+	r.log.RK[r.tok.id] = k
+	return r.Run()
+}
+
+type rcP0 struct {
+	rnBase
+	definition.PriorityComponent
+	K int `value:"${ordrc.p0}"`
+}
+type rcP1 struct {
+	rnBase
+	definition.PriorityComponent
+	K int `value:"${ordrc.p1}"`
+}
+type rcP2 struct {
+	rnBase
+	definition.PriorityComponent
+	K int `value:"${ordrc.p2}"`
+}
+type rcP3 struct {
+	rnBase
+	definition.PriorityComponent
+	K int `value:"${ordrc.p3}"`
+}
+type rcO0 struct {
+	rnBase
+	K int `value:"${ordrc.o0}"`
+}
+type rcO1 struct {
+	rnBase
+	K int `value:"${ordrc.o1}"`
+}
+type rcO2 struct {
+	rnBase
+	K int `value:"${ordrc.o2}"`
+}
+type rcO3 struct {
+	rnBase
+	K int `value:"${ordrc.o3}"`
+}
+
+func (r *rcP0) Order() int { return r.K }
+func (r *rcP0) Run() error { return r.runC(r.Order()) }
+func (r *rcP1) Order() int { return r.K }
+func (r *rcP1) Run() error { return r.runC(r.Order()) }
+func (r *rcP2) Order() int { return r.K }
+func (r *rcP2) Run() error { return r.runC(r.Order()) }
+func (r *rcP3) Order() int { return r.K }
+func (r *rcP3) Run() error { return r.runC(r.Order()) }
+func (r *rcO0) Order() int { return r.K }
+func (r *rcO0) Run() error { return r.runC(r.Order()) }
+func (r *rcO1) Order() int { return r.K }
+func (r *rcO1) Run() error { return r.runC(r.Order()) }
+func (r *rcO2) Order() int { return r.K }
+func (r *rcO2) Run() error { return r.runC(r.Order()) }
+func (r *rcO3) Order() int { return r.K }
+func (r *rcO3) Run() error { return r.runC(r.Order()) }
+
+const rcPerClass = 4
+
+var rcPaths = [2 * rcPerClass]string{"p0", "p1", "p2", "p3", "o0", "o1", "o2", "o3"}
+
+func mkConfRunner(slot int, b sBase) any {
+	rb := rnBase{b}
+	switch slot {
+	case 0:
+		return &rcP0{rnBase: rb}
+	case 1:
+		return &rcP1{rnBase: rb}
+	case 2:
+		return &rcP2{rnBase: rb}
+	case 3:
+		return &rcP3{rnBase: rb}
+	case 4:
+		return &rcO0{rnBase: rb}
+	case 5:
+		return &rcO1{rnBase: rb}
+	case 6:
+		return &rcO2{rnBase: rb}
+	}
+	return &rcO3{rnBase: rb}
+}
+
+// confSlots: runner id → slot of its Go type (class p: 0-3, class o: 4-7), in list order
+func confSlots(rs []ordTok) map[int]int {
+	out := map[int]int{}
+	var used [2]int
+	for _, t := range rs {
+		if t.has('c') {
+			k := strings.IndexByte("po", t.cls)
+			out[t.id] = rcPerClass*k + used[k]
+			used[k]++
+		}
+	}
+	return out
+}
+
+// ordRcDoc: the configuration document that holds every configuration-driven runner's Order under its type's path
+func ordRcDoc(rs []ordTok) []byte {
+	slots := confSlots(rs)
+	if len(slots) == 0 {
+		return nil
+	}
+	var sb strings.Builder
+	sb.WriteString("ordrc:\n")
+	for _, t := range rs {
+		if s, ok := slots[t.id]; ok {
+			fmt.Fprintf(&sb, "  %s: %d\n", rcPaths[s], t.key)
+		}
+	}
+	return []byte(sb.String())
+}
+
+// confRunnerRank: the enumeration order imposed on the definition registry in a start with configuration-driven runners:
+// everything else first (rank 0, Go's own order), then those runners by DESCENDING configured Order
+func confRunnerRank(rs []ordTok) map[string]int {
+	var cs []ordTok
+	for _, t := range rs {
+		if t.has('c') {
+			cs = append(cs, t)
+		}
+	}
+	sort.SliceStable(cs, func(i, j int) bool { return cs[i].key > cs[j].key })
+	rank := map[string]int{}
+	for i, t := range cs {
+		rank[fmt.Sprintf("ordR%d", t.id)] = i + 1
+	}
+	return rank
+}
+
 // zero-size runners (marker e): field-less Go types, so every instance of every one of them has the same address. A zero-size
 // value cannot hold its token or a pointer to the log: Run / Order look both up in the record of the current start, by the
 // slot number that is fixed per Go type (one start at a time per process).
@@ -938,7 +1095,15 @@ var zrCtors = [12]func() any{
 // zeroSizeFits: at most three zero-size runners per class (there are three Go types per class)
 func zeroSizeFits(rs []ordTok) bool {
 	var n [4]int
+	var nc [2]int
 	for _, t := range rs {
+		if t.has('c') { // configuration-driven Order: ordered classes only, four Go types per class, never zero-size
+			k := strings.IndexByte("po", t.cls)
+			if k < 0 || nc[k] == rcPerClass || t.has('e') {
+				return false
+			}
+			nc[k]++
+		}
 		if t.has('e') {
 			k := strings.IndexByte("ponq", t.cls)
 			if k < 0 || n[k] == 3 {
@@ -955,7 +1120,12 @@ func zeroSizeFits(rs []ordTok) bool {
 func mkRunners(rs []ordTok, lg *startLog, cur *ordCur) []any {
 	var used [4]int
 	var out []any
+	slots := confSlots(rs)
 	for _, t := range rs {
+		if s, ok := slots[t.id]; ok {
+			out = append(out, mkConfRunner(s, sBase{tok: t, name: fmt.Sprintf("ordR%d", t.id), log: lg}))
+			continue
+		}
 		if t.has('e') {
 			k := strings.IndexByte("ponq", t.cls)
 			slot := 3*k + used[k]
@@ -979,6 +1149,21 @@ func mkRunner(b sBase) any {
 		return &rnQ{rnBase: rnBase{b}}
 	}
 	return &rnN{rnBase{b}}
+}
+
+// rsAtRun: the runner list with, for every configuration-driven runner that ran, the Order() it answered when its Run was
+// called in place of the token's key (on the unchanged library that IS the configured key) — what the contract is about
+func rsAtRun(rs []ordTok, lg *startLog) []ordTok {
+	if len(lg.RK) == 0 {
+		return rs
+	}
+	out := append([]ordTok(nil), rs...)
+	for i := range out {
+		if k, ok := lg.RK[out[i].id]; ok {
+			out[i].key = k
+		}
+	}
+	return out
 }
 
 func showIDs(in []ordTok, ids []int, withID bool) string {
@@ -1097,16 +1282,47 @@ func runOrderStartK(head string, ls, ps, rs []ordTok, tags []string, w *hx.Write
 		}
 		opts = append(opts, app.SetRegistry(&permSR{SingletonRegistry: support.NewRegistry(), rank: rank}))
 	}
+	// markers t / u: the same instance is registered a second time — in the same SetComponents call (t), in a second
+	// SetComponents option (u)
+	var again []any
+	list := func(t ordTok, x any) {
+		comps = append(comps, x)
+		if t.has('t') {
+			comps = append(comps, x)
+		}
+		if t.has('u') {
+			again = append(again, x)
+		}
+	}
 	for _, t := range ps {
-		comps = append(comps, mkProc(sBase{tok: t, name: fmt.Sprintf("ordP%d", t.id), log: lg}))
+		list(t, mkProc(sBase{tok: t, name: fmt.Sprintf("ordP%d", t.id), log: lg}))
 	}
 	cur := &ordCur{log: lg}
 	curOrd = cur
-	comps = append(comps, mkRunners(rs, lg, cur)...)
+	for i, x := range mkRunners(rs, lg, cur) {
+		list(rs[i], x)
+	}
+	inner := binder.NewViperBinder("yaml")
+	if doc := ordRcDoc(rs); doc != nil {
+		// the Orders of the configuration-driven runners (marker c) are in the configuration before the start (not through the
+		// logging binder: the SetConfig log holds the loaders' documents only); the definition registry enumerates those runners
+		// last, in descending configured Order
+		if err := inner.SetConfig(doc); err != nil {
+			c.Obs = "bad-config"
+			c.Oracle = "FAIL start-harness the runner Orders could not be put into the configuration: " + err.Error()
+			w.Put(c)
+			return
+		}
+		dr := &permDR{DefinitionRegistry: support.DefaultDefinitionRegistry(), rank: confRunnerRank(rs)}
+		opts = append(opts, app.SetFactory(factory.NewWithRegistries(dr, nil)))
+	}
 	opts = append(opts,
-		app.SetConfigBinder(&logBinder{Binder: binder.NewViperBinder("yaml"), log: lg}),
+		app.SetConfigBinder(&logBinder{Binder: inner, log: lg}),
 		app.SetConfigLoader(loaders...),
 		app.SetComponents(comps...))
+	if len(again) > 0 {
+		opts = append(opts, app.SetComponents(again...))
+	}
 	type result struct {
 		err error
 		pan any
@@ -1154,7 +1370,7 @@ func runOrderStartK(head string, ls, ps, rs []ordTok, tags []string, w *hx.Write
 		return
 	}
 	c.Obs = "L:" + showIDs(ls, lg.L, true) + " B:" + showIDs(ls, lg.B, true) + " I:" + showIDs(ps, lg.I, false) +
-		" P:" + showIDs(ps, lg.P, false) + " A:" + showIDs(ps, lg.A, false) + " R:" + showIDs(rs, lg.R, false)
+		" P:" + showIDs(ps, lg.P, false) + " A:" + showIDs(ps, lg.A, false) + " R:" + showIDs(rsAtRun(rs, lg), lg.R, false)
 	early := groupEarly(lg.G)
 	if cyc {
 		gs := make([]string, len(early))
@@ -1216,7 +1432,7 @@ func runOrderStartK(head string, ls, ps, rs []ordTok, tags []string, w *hx.Write
 		seqOracle("start-inst", insts, ilog, "", !loadStop, false),
 		seqOracle("start-processors", ps, lg.P, "!?", !loadStop, false),
 		seqOracle("start-after", ps, lg.A, "^~", !loadStop && !beforeStop, false),
-		seqOracle("start-runners", rs, lg.R, "!", !loadStop && !procErr, false),
+		seqOracle("start-runners", rsAtRun(rs, lg), lg.R, "!", !loadStop && !procErr, false),
 	}
 	// every early-reference request walks the smart processors under the contract, each exactly once
 	// (no request at all when the configuration stage failed: the factory is never built)
@@ -1269,7 +1485,7 @@ func orderStartBFinish(c hx.Case, ls, ps, rs []ordTok, lg *startLog, runErr bool
 		" A:" + showIDs(ps, lg.A, false) + " F:" + fin[0] +
 		" C2 N:" + showIDs(ps, lg.N2, false) + " I:" + showIDs(ps, lg.I2, false) + " P:" + showIDs(ps, lg.P2, false) +
 		" A:" + showIDs(ps, lg.A2, false) + " F:" + fin[1] +
-		" R:" + showIDs(rs, lg.R, false) + " E:" + e
+		" R:" + showIDs(rsAtRun(rs, lg), lg.R, false) + " E:" + e
 
 	lastHas := func(in []ordTok, log []int, m byte) bool { return len(log) > 0 && in[log[len(log)-1]].has(m) }
 	loadStop := anyMark(ls, "!*")
@@ -1339,7 +1555,7 @@ func orderStartBFinish(c hx.Case, ls, ps, rs []ordTok, lg *startLog, runErr bool
 	fail1 := component(ordProbeName, 'b', !loadStop, lg.N, lg.I, lg.P, lg.A)
 	fail2 := component(ordTwinName, 'd', !loadStop && !fail1, lg.N2, lg.I2, lg.P2, lg.A2)
 	procErr := fail1 || fail2
-	if f := seqOracle("start-runners", rs, lg.R, "!", !loadStop && !procErr, false); f != "" {
+	if f := seqOracle("start-runners", rsAtRun(rs, lg), lg.R, "!", !loadStop && !procErr, false); f != "" {
 		checks = append(checks, f)
 	}
 	var wantB []int
@@ -2057,6 +2273,170 @@ func orderStartGen(rng *hx.Rng, n int, tier string, w *hx.Writer) {
 			runOrderStart(ls, ps, rs, false, append(startTags(ls, ps, rs), zeroTags(rs)...), w)
 		}
 	}
+	// … ninth round: one start in ten with participants that reach the registry through two routes, one in ten with runners
+	// whose Order comes from configuration
+	for i := 0; i < n/10; i++ {
+		head, ls, ps, rs := genTwice(rng.Fork())
+		runOrderStartK(head, ls, ps, rs, headTags(head, ls, ps, rs), w)
+	}
+	for i := 0; i < n/10; i++ {
+		head, ls, ps, rs := genConfOrder(rng.Fork())
+		runOrderStartK(head, ls, ps, rs, headTags(head, ls, ps, rs), w)
+	}
+}
+
+// ---- ninth round: one instance registered through two routes (t / u), runners with a configuration-driven Order (c)
+
+// addTwice: one to three processors (when there are any) and every runner with probability 1/3 reach the registry twice:
+// listed twice in the one SetComponents call (t), listed again in a second SetComponents option (u), or both
+func addTwice(r *hx.Rng, ps, rs []ordTok) {
+	how := func() string { return []string{"t", "u", "t", "u", "tu"}[r.Intn(5)] }
+	if len(ps) > 0 {
+		for k := 1 + r.Intn(3); k > 0; k-- {
+			i := r.Intn(len(ps))
+			if !strings.ContainsAny(ps[i].marks, "tu") {
+				ps[i].marks += how()
+			}
+		}
+	}
+	for i := range rs {
+		if r.P(1, 3) {
+			rs[i].marks += how()
+		}
+	}
+}
+
+// genTwice: a start (S 1/2, SC 1/4, SB 1/4) in which some participants are registered twice; at least two processors
+func genTwice(r *hx.Rng) (head string, ls, ps, rs []ordTok) {
+	switch r.Intn(4) {
+	case 2:
+		head = "SC"
+	case 3:
+		head = "SB"
+	default:
+		head = "S"
+	}
+	if head == "SB" {
+		ls, ps, rs = genSB(r)
+	} else {
+		max := 8
+		if r.P(1, 6) {
+			max = 16
+		}
+		ls = genStartList(r, 3, 'L', 8)
+		ps = genStartList(r, max, 'P', 20)
+		for tries := 0; len(ps) < 2 && tries < 4; tries++ {
+			ps = genStartList(r, max, 'P', 20)
+		}
+		rs = genStartList(r, 5, 'R', 15)
+		if head == "SC" {
+			for j := range ps {
+				if r.P(3, 5) {
+					ps[j].inst, ps[j].smart = true, true
+				}
+			}
+		}
+		addDecorator(r, ps)
+	}
+	addTwice(r, ps, rs)
+	return
+}
+
+// confKeyOK: Orders that are put into the configuration stay inside a range that every conversion on the way (YAML, viper,
+// the text the placeholder is replaced by, the decoder) keeps exact
+func confKeyOK(k int) bool { return k >= -1000000 && k <= 1000000 }
+
+// addConfOrder: runners of the two ordered classes get their Order from configuration (marker c): each eligible runner
+// with probability 2/3 while its class has a free Go type; then one class is filled up to at least two such runners (new
+// runners with Orders no other runner of the list has, so injected stops stay tie-free).  Zero-size runners are left alone.
+func addConfOrder(r *hx.Rng, rs []ordTok) []ordTok {
+	var used [2]int
+	for i := range rs {
+		k := strings.IndexByte("po", rs[i].cls)
+		if k >= 0 && !rs[i].has('e') && confKeyOK(rs[i].key) && used[k] < rcPerClass && r.P(2, 3) {
+			rs[i].marks += "c"
+			used[k]++
+		}
+	}
+	k := r.Intn(2)
+	want := 2 + r.Intn(2)
+	for used[k] < want {
+		rs = append(rs, ordTok{cls: "po"[k], key: 10 + len(rs) + r.Intn(3)*20, id: len(rs), marks: "c"})
+		used[k]++
+	}
+	return rs
+}
+
+// genConfOrder: a start (S 5/8, SC 1/4, SB 1/8) with at least two configuration-driven runners in one class
+func genConfOrder(r *hx.Rng) (head string, ls, ps, rs []ordTok) {
+	switch k := r.Intn(8); {
+	case k < 5:
+		head = "S"
+	case k < 7:
+		head = "SC"
+	default:
+		head = "SB"
+	}
+	if head == "SB" {
+		ls, ps, rs = genSB(r)
+	} else {
+		ls = genStartList(r, 3, 'L', 8)
+		ps = genStartList(r, 4, 'P', 15)
+		rs = genStartList(r, 8, 'R', 20)
+		if head == "SC" {
+			for j := range ps {
+				if r.P(3, 5) {
+					ps[j].inst, ps[j].smart = true, true
+				}
+			}
+		}
+	}
+	rs = addConfOrder(r, rs)
+	if r.P(1, 4) {
+		addTwice(r, ps, rs)
+	}
+	return
+}
+
+// ninthTags: who is registered twice; how many configuration-driven runners, and whether the contract orders two of them (same class, different Order)
+func ninthTags(ps, rs []ordTok) []string {
+	var tags []string
+	if anyMark(ps, "tu") {
+		tags = append(tags, "processor-registered-twice")
+	}
+	if anyMark(rs, "tu") {
+		tags = append(tags, "runner-registered-twice")
+	}
+	n, ordered := 0, false
+	for i, a := range rs {
+		if !a.has('c') {
+			continue
+		}
+		n++
+		for _, b := range rs[:i] {
+			if b.has('c') && b.cls == a.cls && b.key != a.key {
+				ordered = true
+			}
+		}
+	}
+	switch {
+	case ordered:
+		tags = append(tags, "config-order-runners-distinct")
+	case n > 0:
+		tags = append(tags, "config-order-runner")
+	}
+	return tags
+}
+
+func headTags(head string, ls, ps, rs []ordTok) []string {
+	tags := startTags(ls, ps, rs)
+	if head == "SC" {
+		tags = append(tags, cycTags(ps)...)
+	}
+	if head == "SB" {
+		tags = append(tags, sbTags(ps, rs)...)
+	}
+	return append(append(tags, zeroTags(rs)...), ninthTags(ps, rs)...)
 }
 
 func orderStartGenOld(rng *hx.Rng, n int, tier string, w *hx.Writer) {
@@ -2157,6 +2537,26 @@ func orderStartCorpus(w *hx.Writer) {
 		"SB L P p3 io1? io2bd n R o1",
 		"SB L P iqb ip1z o5z o9 R",
 		"SB L P so1 sp-9223372036854775808b sn R o1",
+		// ninth round: the same instance registered twice (t: twice in one SetComponents, u: again in a second SetComponents
+		// option) is one participant — once in the sequence, each callback once per component (C12Q registered it per route)
+		"S L P p-5 p20 o1 o70tu n R n",
+		"S L P o5t p1 n R o1",
+		"S L P o5u p1tu nz R o1t p3u nu",
+		"S L P ip3t io1uz in R",
+		"S L P p-100w o5t o9zu R ntu",
+		"SC L P so5t sp1u sn R o1",
+		"SB L P o50t n ip1u io-7bdt p-1 R n",
+		"SB L P o50rt n ip1 io-7b p-1u o-7r ind R p1e neu",
+		// ninth round: runners whose Order() answers a field bound from configuration (c), created after the App component and
+		// enumerated by the definition registry in descending Order: started in ascending Order all the same (C12R fixed the
+		// sequence when the App was populated, where they all still answer 0)
+		"S L P R o30c o10c o20c",
+		"S L P R p50c o10c o20c o30c n",
+		"S L P R p7c p-2c p3c p0c o1c o-1c o5 p4 n q",
+		"S L o1+ P o1 R o3c! o1c o2 n",
+		"S L P o1t R o30cu o10ct o20c o15 p2c p1c",
+		"SC L P so1 sn R o3c o1c o2c p7c p4c",
+		"SB L P inb R o3c o1c n",
 	} {
 		orderReplay(s, w)
 	}
@@ -2210,14 +2610,7 @@ func orderReplay(scn string, w *hx.Writer) {
 		ps, ok2 := parseOrdToks(p)
 		rs, ok3 := parseOrdToks(r)
 		if ok1 && ok2 && ok3 {
-			tags := startTags(ls, ps, rs)
-			if f[0] == "SC" {
-				tags = append(tags, cycTags(ps)...)
-			}
-			if f[0] == "SB" {
-				tags = append(tags, sbTags(ps, rs)...)
-			}
-			runOrderStartK(f[0], ls, ps, rs, append(append(tags, zeroTags(rs)...), "replay"), w)
+			runOrderStartK(f[0], ls, ps, rs, append(headTags(f[0], ls, ps, rs), "replay"), w)
 		}
 	}
 }
